@@ -12,6 +12,9 @@ C23-real    ComplexNodeRemoval lifted: conj/real removed with unchanged meaning 
             complex literals raise.
 C23-pipe    preprocess_form / compute_form_data run the comparison check iff complex_mode and remove
             complex nodes iff not complex_mode (guards on the AST).
+The operand family is extended by a generator: every wrapper chain (conditional then/else branch, sum,
+product, quotient, sin, variable, list-tensor component with fixed and free index) of depth <= 1 (quick) /
+2 (thorough) over the four kinds of leaves (real terminal, complex terminal, real literal, complex literal).
 """
 
 from __future__ import annotations
